@@ -1321,3 +1321,24 @@ func TestVerifProbe_F11(t *testing.T) {
 		Races: []c12Race{{Flush: 1, Writes: []c12RaceW{{HitSel: 0, Via: "store", Ents: []*kit.Ent{c12E(e0, map[string]any{k: "B"}, nil, false)}}}}},
 	}, true)
 }
+
+// F25: the "references only" branch removed the reference keys of a version
+// although later versions of the same entity were stored in the same batch:
+// reference keys carry the commit time but not the position in the batch, so
+// the removed keys were also the later versions' tombstones and a removed
+// relation came back. Needs: V1 deleted with a reference; one batch [V2 =
+// V1 with another property (still deleted), V3 live keeping the reference, V4
+// live without it].
+func TestVerifProbe_F25(t *testing.T) {
+	defer kit.CleanupScratch()
+	p := c12Pool()
+	a := p.P[0]
+	e0, x, y := a+":e0", a+":e1", p.P[1]+":e0"
+	r, k := p.P[1]+":r2", a+":p0"
+	c12Run(t, &c12Case{Thresholds: []int{1, c12Default}, Ops: []c12Op{
+		c12W(c12E(e0, nil, map[string]any{r: []any{x, y}}, true)),
+		c12W(c12E(e0, map[string]any{k: true}, map[string]any{r: []any{x, y}}, true),
+			c12E(e0, nil, map[string]any{r: []any{y}}, false),
+			c12E(e0, nil, nil, false)),
+	}}, true)
+}
